@@ -14,6 +14,8 @@ pub fn dispatch(f: &[String]) -> String {
         "value" => value_mode(f),
         "repl" => repl(&f[1], &f[2], &f[3..]),
         "reexec" => reexec(&f[1], &f[2], &f[3]),
+        "stdsig" => stdsig(),
+        "stdin" => with_stdin(&f[1], &f[2..]),
         other => format!("(bad-mode {other})"),
     }
 }
@@ -517,6 +519,72 @@ fn value_mode(f: &[String]) -> String {
     }));
     match r {
         Ok(s) => s,
+        Err(_) => format!("(panic {})", take_panic()),
+    }
+}
+
+
+/// declared type of every member of `std`, one entry per member: `(module name type)`
+fn stdsig() -> String {
+    let interp = Interpreter::with_stdlib();
+    let Some(Variable::Struct(std)) = interp.get_variable("std").cloned() else {
+        return "(no-std)".into();
+    };
+    let mut out = Vec::new();
+    let mut top: Vec<_> = std.iter().collect();
+    top.sort_by(|a, b| a.0.cmp(b.0));
+    for (name, v) in top {
+        match v {
+            Variable::Struct(m) => {
+                let mut ms: Vec<_> = m.iter().collect();
+                ms.sort_by(|a, b| a.0.cmp(b.0));
+                for (k, x) in ms {
+                    out.push(format!("({} {} {} {})", name, k, canon::ty(&x.as_type()), kind(x)));
+                }
+            }
+            x => out.push(format!("(std {} {} {})", name, canon::ty(&x.as_type()), kind(x))),
+        }
+    }
+    format!("(stdsig {})", out.join(" "))
+}
+
+fn kind(v: &Variable) -> String {
+    match v {
+        Variable::Function(_) => "fn".into(),
+        other => format!("(const {})", canon::value(other)),
+    }
+}
+
+/// `stdin <scenario> <request…>`: run the inner request with fd 0 set up as the scenario says.
+/// `hex:<bytes>` a file with exactly these bytes, `dir` a directory, `closed` no fd 0 at all.
+fn with_stdin(scenario: &str, inner: &[String]) -> String {
+    use std::io::Read;
+    let file = if let Some(hex) = scenario.strip_prefix("hex:") {
+        let bytes: Vec<u8> = (0..hex.len() / 2)
+            .filter_map(|i| u8::from_str_radix(&hex[2 * i..2 * i + 2], 16).ok())
+            .collect();
+        let p = crate::scratch_dir().join(format!("stdin.{}", std::process::id()));
+        if std::fs::write(&p, bytes).is_err() {
+            return "(stdin-setup-failed)".into();
+        }
+        let f = std::fs::File::open(&p).ok();
+        let _ = std::fs::remove_file(&p);
+        f
+    } else if scenario == "dir" {
+        std::fs::File::open(crate::scratch_dir()).ok()
+    } else if scenario == "closed" {
+        None
+    } else {
+        return "(bad-stdin-scenario)".into();
+    };
+    crate::set_stdin(file);
+    let r = panic::catch_unwind(AssertUnwindSafe(|| dispatch(inner)));
+    // drop whatever the process-wide stdin buffer still holds, then detach
+    let mut sink = Vec::new();
+    let _ = std::io::stdin().lock().read_to_end(&mut sink);
+    crate::set_stdin(std::fs::File::open("/dev/null").ok());
+    match r {
+        Ok(t) => t,
         Err(_) => format!("(panic {})", take_panic()),
     }
 }
